@@ -77,7 +77,7 @@ var schemes = []string{"", "http://", "https://", "tg://", "ftp://", "HTTPS://",
 var lookalikes = []string{"t.me.evil.com", "xt.me", "T.ME", "telegram.org", "t.me.", "tme", "localhost", "[::1]", "t.me@evil.com", "evil.com@t.me"}
 var ports = []string{"", ":443", ":80", ":"}
 var names = []string{"durov", "Durov", "BotFather", "joinchat", "AbC_123", "%41bc", "имя", "İstanbul", "a b", "{token}", "{username}", ".", "..", "a%2Fb", "x-y", "K"}
-var tails = []string{"", "?start=1", "#frag", "?a=b#c"}
+var tails = []string{"", "?start=1", "#frag", "?a=b#c", "?start=100%", "?text=%zz", "?a=1;b=2", "?%", "?&&=&", "?a=%4", "?;", "?start=a%20b+c&start=d", "?#%"}
 
 func plainName(s string) bool {
 	if s == "" {
